@@ -377,7 +377,7 @@ func c03Control(rt *rapid.T) {
 
 // TestC03Wire: what a connection writes to the socket for a message is exactly msg.ToBytes().
 func TestC03Wire(t *testing.T) {
-	ev.Rule("a Selected connection (both roles) sends generated messages through ForwardDataMessage / ForwardDataMessageAsync (exact bytes known; the forwarded message is built with its header, or re-stamped to it from a message built or wire-decoded with another header, or decoded from the wire), SendDataMessage / SendDataMessageAsync / SendSECS2Message / ReplyDataMessage (bytes known up to the library-chosen system bytes / session id, read back at their E37 positions); the raw peer compares the bytes it reads; non-trivial = body non-empty")
+	ev.Rule("a Selected connection (both roles) sends generated messages through ForwardDataMessage / ForwardDataMessageAsync (exact bytes known; the forwarded message is built with its header, or re-stamped to it from a message built or wire-decoded with another header, or decoded from the wire), SendDataMessage / SendDataMessageAsync / SendSECS2Message / ReplyDataMessage (bytes known up to the library-chosen system bytes / session id, read back at their E37 positions); the raw peer compares the bytes it reads; optionally 2-5 re-stamped copies of one message are forwarded concurrently (sync and async) and the wire must carry exactly their reference frames; non-trivial = body non-empty")
 	vt.Bubble(t, func(t *testing.T) {
 		vt.CheckBubble(t, 8000, 400000, func(rt *rapid.T) {
 			active := rapid.Bool().Draw(rt, "active")
@@ -521,6 +521,70 @@ func TestC03Wire(t *testing.T) {
 				ev.Case(len(bodyBytes) > 0, fmt.Sprint(entry, stream, function, len(bodyBytes), gf.Sys, role), func() any {
 					return fmt.Sprintf("%s (%s) wrote %v", entry, role, gf)
 				}, "c03:wire:"+strings.SplitN(entry, "/", 2)[0], "c03:wire:"+role, "c03:wire-entry:"+entry)
+			}
+			// fan-out: re-stamped copies of ONE message (they share its body) forwarded at the same time
+			// from several goroutines on this connection; every frame on the wire must be the reference
+			// frame of one of the copies, each exactly once
+			if rapid.Bool().Draw(rt, "fanout") {
+				body := gen.Value(rt, gen.Opts{MaxDepth: 4, Budget: 3000, NoBigCounts: true})
+				bodyBytes := e5.Encode(body)
+				stream, function := byte(rapid.IntRange(0, 127).Draw(rt, "fstream")), byte(rapid.IntRange(0, 127).Draw(rt, "ffunction")*2)
+				base, berr := hsms.NewDataMessage(stream, function, false, 0x0101, sysArr(0xA0000000), gen.Build(rt, body, nil))
+				if berr != nil {
+					rt.Fatalf("VERIF-INFRA: %v", berr)
+				}
+				k := rapid.IntRange(2, 5).Draw(rt, "copies")
+				copies := make([]*hsms.DataMessage, k)
+				want := map[string]int{}
+				for i := range copies {
+					fs, fy := uint16(0x0200+i), 0xA1000000+uint32(i)
+					if rapid.Bool().Draw(rt, "viaID") {
+						copies[i] = base.WithSessionID(fs).WithID(fy)
+					} else {
+						copies[i] = base.WithSystemBytes(sysArr(fy)).WithSessionID(fs)
+					}
+					want[string(e37.DataFrame(fs, stream, function, false, fy, bodyBytes).Bytes())]++
+				}
+				p.Take()
+				errs := make([]error, k)
+				var wg sync.WaitGroup
+				start := make(chan struct{})
+				for i := range copies {
+					wg.Add(1)
+					go func(i int) {
+						defer wg.Done()
+						<-start
+						ctx, cancel := ctxT(time.Second)
+						defer cancel()
+						if i%2 == 0 {
+							errs[i] = w.conn.ForwardDataMessage(ctx, copies[i])
+						} else {
+							errs[i] = w.conn.ForwardDataMessageAsync(ctx, copies[i])
+						}
+					}(i)
+				}
+				close(start)
+				wg.Wait()
+				synctest.Wait()
+				for i, e := range errs {
+					if e != nil {
+						rt.Fatalf("C03 violated: forwarding copy %d of %d concurrently failed: %v", i, k, e)
+					}
+				}
+				got := p.Take()
+				if len(got) != k {
+					rt.Fatalf("C03 violated: %d copies forwarded concurrently, %d frames on the wire\n%s", k, len(got), p.Transcript())
+				}
+				for _, rf := range got {
+					key := string(rf.F.Bytes())
+					if want[key] == 0 && !hasNaN(body) {
+						rt.Fatalf("C03 violated: %d re-stamped copies of one message forwarded concurrently: the wire carries a frame (%v) that is not the serialization of any copy (or carries one twice)", k, rf.F)
+					}
+					want[key]--
+				}
+				ev.Case(len(bodyBytes) > 0, fmt.Sprint("fanout", stream, function, k, len(bodyBytes)), func() any {
+					return fmt.Sprintf("fan-out of %d copies, body %d bytes", k, len(bodyBytes))
+				}, "c03:wire:fanout")
 			}
 		})
 	})
